@@ -5,7 +5,7 @@ from ..translate import arith, cellctor, cellentry
 SPEC = dict(
     manifest=dict(
         category='proof',
-        text='Lean proves for EVERY tree of ordinary cells (all bit lengths, ref counts, shapes; SHA-256 abstract) that the model of Cell.__init__ is constructible iff depth<=1023 and reports the textbook representation hash/depth at every level, that get_representation hashes to the cached hash, that ==/__hash__ coincide with hash equality, and that the standard representation is injective (c01_repr_injective: d1 d2 ++ padded data ++ child depths ++ child hashes determines the BIT STRING -- the completion-tag padding is invertible given d2, Proofs/Pad.lean -- the reference count and every child depth field and hash; c01_hash_binding: equal hashes without a collision on the two representations mean equal bits and child hashes). The model is tied to the code by differential correspondence through 12 construction routes. The integer arithmetic the model rests on (descriptors, level-mask functions, depth limit, pruned offsets) is additionally REGENERATED from the Python source on every run and proved equal to the model/spec for all inputs (c0x_src_* theorems). The WHOLE constructor is regenerated as well: Cell.__init__ with resolve_mask, the calculate_hashes loop (hash-index bookkeeping, the three raise points, child depths and hashes fed to the hash object), get_descriptors, the completion-tag padding of get_data_bytes, get_hash/get_depth of the children and NullCell.__init__ are re-translated into Generated/CellCtor.lean on every run (harness/translate/pyobj.py + cellctor.py, validated against the running library on about 480 cells each time the source or translator changes), and Lean proves for ALL cell types, bit strings and child infos that the regenerated constructor equals the hand model Model.construct including Cell.hash, the descriptor bytes and the padded data (c01_src_constructor; Proofs/SrcCellCtor.lean), so c01_hash_depth / c01_constructible_iff hold for what the source computes (c01_src_hash_depth). A source change inside the translatable subset breaks this proof and the check then evaluates regenerated constructor vs model on boundary DAGs to hand the differing cells to the oracle; outside the subset the tie is reported lost and the sampled correspondence decides. The OBSERVERS are regenerated too (harness/translate/cellentry.py -> Generated/CellEntry.lean, same program as the constructor, validated against the library on the same ~480 cells): Cell.get_representation (descriptors ++ data or the previous hash ++ child depths ++ child hashes, the Merkle level shift, one loop over the references), calculate_representation_hash, the property hash, __eq__ and __hash__ are proved equal to Model.representation / CellInfo.pyEq / pyHash for ALL infos and child infos (c01_src_observers), and the three statements are restated about the regenerated code: c01_src_repr_agrees (for every ordinary cell of depth <= 1023 the regenerated calculate_representation_hash on the attributes the regenerated constructor leaves behind returns the cached Cell.hash), c01_src_eq_iff_hash, c01_src_pyhash_iff_hash (neither raises; True / equal dict keys exactly when the hashes are equal). A change of these lines inside the subset breaks a proof; the check then lets Lean compare regenerated vs model per cell (cellentry.diff_dags) and hands the differing cells to the oracle (representation hash vs spec, == / hash() / dict lookup over all pairs).',
+        text='Lean proves for EVERY tree of ordinary cells (all bit lengths, ref counts, shapes; SHA-256 abstract) that the model of Cell.__init__ is constructible iff depth<=1023 and reports the textbook representation hash/depth at every level, that get_representation hashes to the cached hash, that ==/__hash__ coincide with hash equality, and that the standard representation is injective (c01_repr_injective: d1 d2 ++ padded data ++ child depths ++ child hashes determines the BIT STRING -- the completion-tag padding is invertible given d2, Proofs/Pad.lean -- the reference count and every child depth field and hash; c01_hash_binding: equal hashes without a collision on the two representations mean equal bits and child hashes). The model is tied to the code by differential correspondence through 12 construction routes. The integer arithmetic the model rests on (descriptors, level-mask functions, depth limit, pruned offsets) is additionally REGENERATED from the Python source on every run and proved equal to the model/spec for all inputs (c0x_src_* theorems). The WHOLE constructor is regenerated as well: Cell.__init__ with resolve_mask, the calculate_hashes loop (hash-index bookkeeping, the three raise points, child depths and hashes fed to the hash object), get_descriptors, the completion-tag padding of get_data_bytes, get_hash/get_depth of the children and NullCell.__init__ are re-translated into Generated/CellCtor.lean on every run (harness/translate/pyobj.py + cellctor.py, validated against the running library on about 480 cells each time the source or translator changes), and Lean proves for ALL cell types, bit strings and child infos that the regenerated constructor equals the hand model Model.construct including Cell.hash, the descriptor bytes and the padded data (c01_src_constructor; Proofs/SrcCellCtor.lean), so c01_hash_depth / c01_constructible_iff hold for what the source computes (c01_src_hash_depth). A source change inside the translatable subset breaks this proof and the check then evaluates regenerated constructor vs model on boundary DAGs to hand the differing cells to the oracle; outside the subset the tie is reported lost and the sampled correspondence decides. The OBSERVERS are regenerated too (harness/translate/cellentry.py -> Generated/CellEntry.lean, same program as the constructor, validated against the library on the same ~480 cells): Cell.get_representation (descriptors ++ data or the previous hash ++ child depths ++ child hashes, the Merkle level shift, one loop over the references), calculate_representation_hash, the property hash, __eq__ and __hash__ are proved equal to Model.representation / CellInfo.pyEq / pyHash for ALL infos and child infos (c01_src_observers), and the three statements are restated about the regenerated code: c01_src_repr_agrees (for every ordinary cell of depth <= 1023 the regenerated calculate_representation_hash on the attributes the regenerated constructor leaves behind returns the cached Cell.hash), c01_src_eq_iff_hash, c01_src_pyhash_iff_hash (neither raises; True / equal dict keys exactly when the hashes are equal). A change of these lines inside the subset breaks a proof; the check then lets Lean compare regenerated vs model per cell (cellentry.diff_dags) and hands the differing cells to the oracle (representation hash vs spec, == / hash() / dict lookup over all pairs). Round 10: every run also builds (a) sibling sub-DAGs whose depths are chosen independently over both bytes of the 2-byte depth field a parent hashes (one shared spine of depth 0..1023, every ordered pair of 18 depth points, 2-4 siblings of byte-wise independent depths, such cells as siblings again, children at the limit; the same with pruned branches that STORE their depth) and (b) a tree next to its pruned / differently pruned twins, where ==, !=, hash(), dict and set and list membership of every pair are judged by the SPEC representation hashes; c01_twins_unequal proves for all infos that cells of different level mask (a tree vs. its pruned twin) are unequal and have different dict keys unless H collides on their two representations.',
         level_note='Trusted: Lean kernel (propext, Classical.choice, Quot.sound), the source translators pyarith.py / pyobj.py with their declared interface (attribute types, a child cell = its CellInfo, sha256 streaming = hash of the concatenation, bitarray/int built-ins of PyObj.lean; a property read = the call of its body; `other` in __eq__ is a constructed cell whose _hash is the hash of the model; differentially validated against CPython), Model/Cell.lean as a hand transcription of cell.py/exotic.py (for the constructor, get_representation, __eq__, __hash__ now proved equal to the regenerated source, c01_src_constructor / c01_src_observers; elsewhere checked by sampled correspondence: ~29k node observations per quick run incl. every bit-length class and depth 1022-1025 chains), bitarray/hashlib semantics, the Python harness.',
         technique='Lean 4 refinement proof (hand model) + constructor, get_representation, __eq__, __hash__ regenerated from the source and proved equal to the model for all inputs + differential correspondence with the library',
     ),
@@ -16,6 +16,7 @@ SPEC = dict(
     lean_targets=['TonVerif.Proofs.SrcCellEntry'],
     design_ref='DESIGN.md §6 C01',
     rule='ordinary-cell DAGs: every bit length class (all 1024 lengths in thorough), 0-4 refs, sharing, chains to depth 1022/1023/1024; '
+         'siblings with byte-wise independent depths over a shared spine / stored in pruned branches; a tree next to its pruned twins (all pairs, 10 identity observers); '
          'each node observed through routes ctor/plain-bitarray/builder/boc/copy/slice/to_builder; distinct = distinct (dag, node, route); '
          'non-trivial = node has bits or refs',
     trusted_base=['Model/Cell.lean mirrors Cell.__init__/calculate_hashes/get_hash/get_depth/get_representation by hand (each proved equal to its regenerated counterpart: c01_src_constructor, c01_src_observers)',
@@ -83,10 +84,15 @@ def foreign_boc(c, bogus):
     rng = random.Random(f'{bogus}:{c.hash.hex()}')
     recs = []
     for x in order:
-        h, d = x.get_hash(0), x.get_depth(0)
-        if bogus is not None:
-            h, d = rng.randbytes(32), rng.choice([0, 1, d + 1, rng.randrange(1024)])
-        recs.append(dict(kind=-1, bits=x.bits.to01(), refs=[pos[r.hash] for r in x.refs], mask=0, hashes=[h], depths=[d]))
+        m = x.level_mask.mask                      # a cell above a pruned branch has level > 0: one stored hash/depth per significant level
+        hs, ds = [], []
+        for l in [0] + [l for l in (1, 2, 3) if (m >> (l - 1)) & 1]:
+            h, d = x.get_hash(l), x.get_depth(l)
+            if bogus is not None:
+                h, d = rng.randbytes(32), rng.choice([0, 1, d + 1, rng.randrange(1024)])
+            hs.append(h)
+            ds.append(d)
+        recs.append(dict(kind=x.type_, bits=x.bits.to01(), refs=[pos[r.hash] for r in x.refs], mask=m, hashes=hs, depths=ds))
     n = len(recs)
     tot = sum(len(C05.enc_record(r, 1 if n < 256 else 2, True)) for r in recs)
     fr = dict(magic='g', size=1 if n < 256 else 2, off=max(1, (tot.bit_length() + 7) // 8), idx=False, crc=bool(bogus), cache=False,
@@ -117,27 +123,10 @@ def check_dag(ctx, nodes, tag, derive=True, routes=ROUTES):
             s = spec[i]
             ctx.count('refs:%d' % len(nodes[i][2]))
             ctx.count('len%%8=%d' % (len(nodes[i][1]) % 8))
-            if s is None:
+            o = _judge(ctx, route, i, c, s, False if model is None else model[i], lambda: inp)
+            if o is None:
                 continue
-            if not s.valid:
-                ctx.count('spec-invalid:' + s.why)
-                if c is not None and s.why in ('depth>1023', 'bits>1023'):
-                    ctx.fail(f'overlimit:{route}', f'cell beyond limits ({s.why}) was constructed', inp, 'constructed', 'error')
-                if model is not None and (model[i] is None) != (c is None):
-                    ctx.corr_broken(f'constructibility differs on invalid cell node {i} route {route}: model={model[i] is not None} lib={c is not None}; {inp}')
-                continue
-            if c is None:
-                ctx.fail(f'unconstructible:{route}', 'spec-valid ordinary cell cannot be constructed', inp, 'exception', 'cell')
-                continue
-            o = G.observe(c)
-            bad = cmp_obs(o, spec_obs(s))
-            if bad:
-                ctx.fail(f'hash:{route}:{",".join(bad)}', f'library {bad} differ from the TON representation hash/depth (node {i})', inp,
-                         {k: o[k] for k in bad}, {k: spec_obs(s)[k] for k in bad})
-            elif model is not None:
-                if model[i] is None or cmp_obs(o, model[i]):
-                    ctx.corr_broken(f'model != library on node {i} route {route}: {inp}')
-            if derive and i == len(libs) - 1:
+            if derive and i == len(libs) - 1 and nodes[i][0] == G.ORD:      # (an exotic cell has no builder / slice form)
                 for name, f in derived_routes(c):
                     try:
                         d = f()
@@ -152,18 +141,125 @@ def check_dag(ctx, nodes, tag, derive=True, routes=ROUTES):
     return spec
 
 
-def eq_pairs(ctx, nodes):
-    """__eq__ / __hash__ exactly when the hashes are equal (over all pairs of nodes of one DAG)."""
+def _obs(name, f):
+    return name, f
+
+
+# every way the library (and Python through it) identifies a cell; each answers "are a and b the same cell?"
+IDENTITY_OBSERVERS = [
+    _obs('==', lambda a, b: bool(a == b)),
+    _obs('!=', lambda a, b: not (a != b)),
+    _obs('__hash__', lambda a, b: a.__hash__() == b.__hash__()),
+    _obs('hash()', lambda a, b: hash(a) == hash(b)),
+    _obs('dict-get', lambda a, b: {a: 1}.get(b) is not None),
+    _obs('dict-overwrite', lambda a, b: len({a: 1, b: 2}) == 1),
+    _obs('set-in', lambda a, b: b in {a}),
+    _obs('set-len', lambda a, b: len({a, b}) == 1),
+    _obs('list-in', lambda a, b: b in [a]),
+    _obs('list-count', lambda a, b: [a, a].count(b) == 2),
+]
+
+
+def identity_pairs(ctx, nodes, tag, pairs=None, spec=None):
+    """"Two cells compare equal, and collide as dictionary keys, exactly when their representation hashes are equal", judged by the
+    SPEC hashes (gen/cells.py spec_node), for every observer that identifies cells, over pairs of nodes of one DAG (all ordered pairs if
+    `pairs` is None), the second operand once from the same build and once built again through another route."""
+    spec = spec or G.spec_dag(nodes)
     libs = G.lib_build(nodes, 'ctor')
     libs2 = G.lib_build(nodes, 'builder')
-    cs = [c for c in libs if c is not None]
-    for i, a in enumerate(cs):
-        for b in cs[i:] + [x for x in libs2 if x is not None][:i + 1]:
-            ctx.case(('eq', a.hash, b.hash), nontrivial=False)
-            same = a.hash == b.hash
-            if (a == b) != same or (a.__hash__() == b.__hash__()) != same or (({a: 1}.get(b) is not None) != same):
-                ctx.fail('eq', '__eq__/__hash__ disagree with hash equality', {'a': a.hash.hex(), 'b': b.hash.hex()},
-                         {'eq': a == b, 'hash_eq': a.__hash__() == b.__hash__()}, same)
+    ok = [i for i in range(len(nodes)) if spec[i] is not None and spec[i].valid and libs[i] is not None and libs2[i] is not None]
+    if pairs is None:
+        pairs = [(i, j) for i in ok for j in ok]
+    n0 = len(ctx.failures)
+    for i, j in pairs:
+        if i not in ok or j not in ok:
+            continue
+        si, sj = spec[i], spec[j]
+        want = si.H[4] == sj.H[4]
+        cls = 'equal' if want else 'level0-twins' if (si.H[0] == sj.H[0] and si.kind == sj.kind) else 'same-bits' if \
+            (si.bits == sj.bits and si.kind == sj.kind) else 'different'
+        ctx.case(('eq', tag, si.H[4], sj.H[4]), nontrivial=(i != j))
+        ctx.count('eq:' + cls)
+        for b, how in ((libs[j], 'same-build'), (libs2[j], 'rebuilt')):
+            a = libs[i]
+            for name, f in IDENTITY_OBSERVERS:
+                try:
+                    got = f(a, b)
+                except Exception as e:
+                    got = f'raised {type(e).__name__}'
+                if got is not want and len(ctx.failures) < n0 + 6:
+                    sub, new = G.sub_dag(nodes, [i, j])
+                    # kind `eq`: an observable collision / separation of two cells; kind `pyhash`: only the hash values agree / differ
+                    ctx.fail(f'{"pyhash" if "hash" in name else "eq"}:{name}', f'{name} says {got} for two cells ({cls}, second operand {how}) whose representation hashes are '
+                             f'{"equal" if want else "different"}', {'dag': [list(n) for n in sub], 'pair': [new[i], new[j]], 'tag': tag},
+                             {'observer': name, 'answer': got, 'a.hash': a.hash.hex(), 'b.hash': b.hash.hex(),
+                              'a.get_hash(0)': a.get_hash(0).hex(), 'b.get_hash(0)': b.get_hash(0).hex()},
+                             {'answer': want, 'spec hash a': si.H[4].hex(), 'spec hash b': sj.H[4].hex()})
+    return len(ctx.failures) > n0
+
+
+def eq_pairs(ctx, nodes, tag='eq'):
+    """__eq__ / __hash__ / dict / set / list membership exactly when the (spec) hashes are equal, over all pairs of nodes of one DAG."""
+    n = len(nodes)
+    pairs = None
+    if n > 40:                              # big DAG: every node with itself, its neighbours and a spread of others
+        pairs = [(i, j) for i in range(n) for j in sorted({i, (i + 1) % n, (i * 7 + 3) % n, n - 1 - i})]
+    return identity_pairs(ctx, nodes, tag, pairs)
+
+
+def check_shared(ctx, nodes, focus, tag, routes):
+    """check_dag for ONE big DAG whose sub-DAGs are shared by many cells of interest (`focus`): every node is built through `routes`
+    and judged against spec and model; a failure is reported with the sub-DAG under the failing cell as its (replayable) input."""
+    spec = G.spec_dag(nodes)
+    model = G.parse_dag_answer(ctx.model.run([G.dag_line(nodes)])[0]) if ctx.driver_ok else None
+    fset = set(focus)
+    n0 = len(ctx.failures)
+    for route in routes:
+        libs = G.lib_build(nodes, route)
+        for i, c in enumerate(libs):
+            if len(ctx.failures) >= n0 + 8:          # leave room for the failures of the other classes (core keeps 50)
+                return spec
+            s = spec[i]
+            ctx.case((tag, route, i if s is None or not s.valid else s.H[4]), nontrivial=True)
+            ctx.count(f'route:{route}')
+            if i in fset:
+                ctx.count('refs:%d' % len(nodes[i][2]))
+                ds = [spec[j].D[0] for j in nodes[i][2] if spec[j] is not None and spec[j].valid]
+                if len(ds) == len(nodes[i][2]) and len(ds) >= 2:
+                    ctx.count('sibling-depth-bytes:' + G.sibling_relation(ds))     # '><' = the bytes of the deepest and another child cross
+            _judge(ctx, route, i, c, s, False if model is None else model[i], lambda i=i: _sub_input(nodes, i, tag))
+    return spec
+
+
+def _sub_input(nodes, i, tag):
+    sub, _ = G.sub_dag(nodes, [i])
+    return {'dag': [list(n) for n in sub], 'tag': tag}
+
+
+def _judge(ctx, route, i, c, s, m, fill):
+    """one library cell `c` (None = the constructor raised) against its spec values `s` and the model's `m` (None = the model refuses the
+    cell, False = no model available); fill() = the failure input, built only when needed; -> observation or None"""
+    if s is None:
+        return None
+    if not s.valid:
+        ctx.count('spec-invalid:' + s.why)
+        if c is not None and s.why in ('depth>1023', 'bits>1023'):
+            ctx.fail(f'overlimit:{route}', f'cell beyond limits ({s.why}) was constructed', fill(), 'constructed', 'error')
+        if m is not False and (m is None) != (c is None):
+            ctx.corr_broken(f'constructibility differs on invalid cell node {i} route {route}: model={m is not None} lib={c is not None}; {fill()}')
+        return None
+    if c is None:
+        ctx.fail(f'unconstructible:{route}', 'spec-valid ordinary cell cannot be constructed', fill(), 'exception', 'cell')
+        return None
+    o = G.observe(c)
+    bad = cmp_obs(o, spec_obs(s))
+    if bad:
+        ctx.fail(f'hash:{route}:{",".join(bad)}', f'library {bad} differ from the TON representation hash/depth (node {i})', fill(),
+                 {k: o[k] for k in bad}, {k: spec_obs(s)[k] for k in bad})
+    elif m is not False:
+        if m is None or cmp_obs(o, m):
+            ctx.corr_broken(f'model != library on node {i} route {route}: {fill()}')
+    return o
 
 
 def src_search(ctx):
@@ -190,10 +286,20 @@ def src_search(ctx):
     dags += [(f'dag{t}', G.gen_ordinary_dag(rng, rng.randrange(2, 10), deep=t % 2 == 0)) for t in range(12)]
     dags += [(f'chain{d}x{w}', G.chain(d, '', w)) for d in (1, 2, 1022, 1023, 1024) for w in (1, 2)]
     dags += [(t, n) for t, n in cellctor.validation_dags() if all(k == G.ORD for k, _, _ in n)]
+    # siblings whose 2-byte depths interact byte-wise: a short spine with the parents that need no deeper child, and stored depths
+    sd, sdf = G.sibling_depth_dag(rng, 0, top=300)
+    sd_spec = G.spec_dag(sd)
+    keep = [i for i in sdf if '><' in [G.byte_relation(max(sd_spec[j].D[0] for j in sd[i][2]), sd_spec[j].D[0]) for j in sd[i][2]]]
+    dags.append(('sibling-depths', G.sub_dag(sd, keep + [300])[0]))
+    dags.append(('stored-depth-siblings', G.stored_depth_siblings(rng, 60)[0]))
     found = cellctor.diff_dags(ctx, dags)
     found.sort(key=lambda f: sum(len(n[1]) for n in f[1]))
     for tag, nodes, idx in found[:40]:
-        check_dag(ctx, nodes[:max(idx) + 1], f'src-ctor-{tag}', derive=False, routes=['ctor'])
+        if len(nodes) > 60:                     # a shared DAG: judge each differing cell on its own sub-DAG
+            for i in idx[:6]:
+                check_dag(ctx, G.sub_dag(nodes, [i])[0], f'src-ctor-{tag}', derive=False, routes=['ctor'])
+        else:
+            check_dag(ctx, nodes[:max(idx) + 1], f'src-ctor-{tag}', derive=False, routes=['ctor'])
         if len(ctx.failures) > n0 + 3:
             break
     if len(ctx.failures) > n0:
@@ -201,11 +307,13 @@ def src_search(ctx):
     # the cells on which the REGENERATED get_representation / calculate_representation_hash / __eq__ / __hash__
     # (Generated/CellEntry.lean) and the hand model differ: check_dag compares the library's calculate_representation_hash and
     # __hash__ with the spec, eq_pairs judges == / hash() / dict lookup over all pairs of the DAG
+    # + a tree next to its pruned twins (the versions' roots are adjacent nodes: the Lean comparison evaluates == between neighbours)
+    dags = dags + [(f'pruned-twins{t}', G.pruned_twins(rng, exotic=t % 3 == 2)[0]) for t in range(8)]
     found = cellentry.diff_dags(ctx, dags)
     found.sort(key=lambda f: sum(len(n[1]) for n in f[1]))
     for tag, nodes, idx in found[:40]:
         check_dag(ctx, nodes[:max(idx) + 1], f'src-entry-{tag}', derive=False, routes=['ctor'])
-        eq_pairs(ctx, nodes[:max(idx) + 1])
+        eq_pairs(ctx, nodes[:max(idx) + 1], f'src-entry-{tag}')
         if len(ctx.failures) > n0 + 3:
             break
     return len(ctx.failures) > n0
@@ -239,13 +347,15 @@ def run(ctx):
         nodes = G.gen_ordinary_dag(rng, rng.randrange(1, 14), deep=rng.random() < 0.3)
         check_dag(ctx, nodes, f'dag{t}', derive=(t % 3 == 0))
         if t % 10 == 0:
-            eq_pairs(ctx, nodes)
+            eq_pairs(ctx, nodes, f'dag{t}')
     # near twins built next to each other in one process: cells differing only in what a cache key could forget
     for t in range(ctx.n(120, 1200)):
         twins = G.near_twins(rng)
         check_dag(ctx, twins, f'twins{t}', derive=(t % 6 == 0), routes=[rng.choice(ROUTES)])
         if t % 4 == 0:
-            eq_pairs(ctx, twins)            # equal bits with different references, equal references with different bits: == / hash() must tell them apart
+            eq_pairs(ctx, twins, f'twins{t}')            # equal bits with different references, equal references with different bits: == / hash() must tell them apart
+    sibling_depths(ctx)
+    pruned_twins(ctx)
     # chains around the depth limit
     for depth in (1, 2, 1021, 1022, 1023, 1024, 1025):
         for width in (1, 2):
@@ -257,8 +367,48 @@ def run(ctx):
     check_dag(ctx, nodes, 'chain-last-ref', derive=True, routes=['ctor'])
 
 
+def sibling_depths(ctx):
+    """CLASS: sibling sub-DAGs whose depths are chosen independently so that every byte of the 2-byte depth field a parent hashes is
+    exercised (a deep child next to a shallower one with a larger low byte, in every position, 2-4 siblings, such cells again as
+    siblings, children at the depth limit).  The deep sub-DAGs are one shared spine."""
+    rng = ctx.rng
+    nodes, focus = G.sibling_depth_dag(rng, ctx.n(250, 1200))
+    spec = check_shared(ctx, nodes, focus, 'sibling-depths', ['ctor', 'builder'] if ctx.thorough else ['ctor', rng.choice(['plain', 'builder'])])
+    # a few of them (children whose depth bytes cross) through every other construction route as well
+    crossed = [i for i in focus if spec[i] is not None and spec[i].valid and
+               '><' in [G.byte_relation(max(spec[j].D[0] for j in nodes[i][2]), spec[j].D[0]) for j in nodes[i][2]]]
+    for t, i in enumerate(rng.sample(crossed, min(len(crossed), ctx.n(4, 12)))):
+        sub, _ = G.sub_dag(nodes, [i])
+        sub.append((G.ORD, G.rand_bits(rng, 5), (0, len(sub) - 1)))          # its parent hashes its depth
+        check_dag(ctx, sub[:-1] if t % 2 else sub, f'sibling-depths-routes{t}', derive=True, routes=[rng.choice(ROUTES)])
+    ctx.count('sibling-depths:crossed-cells', len(crossed))
+    # the same class without any deep sub-DAG: pruned branches store the depth they answer with (ordinary / Merkle-update parents)
+    nodes, focus = G.stored_depth_siblings(rng, ctx.n(150, 800))
+    check_shared(ctx, nodes, focus, 'stored-depth-siblings', ['ctor', rng.choice(['plain', 'builder'])])
+
+
+def pruned_twins(ctx):
+    """CLASS: a tree next to its pruned / differently pruned twins (same level-0 tree, different cells) - all observed like any other cell
+    (hash / depth / representation at every level, derived routes incl. a bag holding several twins) and compared with each other by
+    every observer that identifies cells."""
+    rng = ctx.rng
+    for t in range(ctx.n(24, 200)):
+        nodes, roots, what = G.pruned_twins(rng, exotic=t % 3 == 2)
+        tag = f'pruned-twins{t}'
+        spec = G.spec_dag(nodes)
+        if len(nodes) <= 45:
+            identity_pairs(ctx, nodes, tag, spec=spec)
+        else:
+            top = list(dict.fromkeys(roots)) + list(range(len(nodes) - 3, len(nodes)))
+            identity_pairs(ctx, nodes, tag, pairs=[(i, j) for i in top for j in range(len(nodes))] + [(j, i) for i in top for j in range(len(nodes))], spec=spec)
+        if len(ctx.failures) < 44:
+            check_dag(ctx, nodes, tag, derive=(t % 4 == 0), routes=[rng.choice(ROUTES)])
+
+
 def replay(ctx, payload):
     inp = payload.get('input') or {}
     if 'dag' in inp:
         nodes = [(k, b, tuple(r)) for k, b, r in inp['dag']]
         check_dag(ctx, nodes, inp.get('tag', 'replay'))
+        if 'pair' in inp:
+            identity_pairs(ctx, nodes, inp.get('tag', 'replay'), pairs=[tuple(inp['pair']), tuple(inp['pair'][::-1])])
